@@ -91,6 +91,30 @@ func PDFWidths() []byte {
 	return pdfw.Write(d, pdfw.Layout{}).Bytes
 }
 
+// PDFForms: Form XObjects with their own resources; the name Fm1 means one form at page level and
+// another one inside Fm0 (name shadowing), and a form is invoked on two pages.
+func PDFForms() []byte {
+	l := func(f pdfw.FontKind, y float64, s string) pdfw.Line {
+		return pdfw.Line{Font: f, Text: s, X: 72, Y: y, Size: 12}
+	}
+	d := pdfw.Doc{Name: "forms", Pages: []pdfw.Page{
+		{Lines: []pdfw.Line{l(pdfw.Type1WinAnsi, 700, "outer page text one")},
+			Forms: []pdfw.Form{
+				{Name: "Fm0", Lines: []pdfw.Line{l(pdfw.Type1WinAnsi, 650, "middle form text")},
+					Forms: []pdfw.Form{{Name: "Fm1", Lines: []pdfw.Line{l(pdfw.TrueTypeMacRoman, 620, "inner nested text")}}}},
+				{Name: "Fm1", Lines: []pdfw.Line{l(pdfw.Type1WinAnsi, 590, "page level second form")}},
+			}},
+		// here the shadowed name is used at page level BEFORE the form that re-binds it in its own scope
+		{Lines: []pdfw.Line{l(pdfw.TrueTypeMacRoman, 700, "second page own text")},
+			Forms: []pdfw.Form{
+				{Name: "Fm1", Matrix: [6]float64{1, 0, 0, 1, 10, -30}, Lines: []pdfw.Line{l(pdfw.Type1WinAnsi, 650, "second page form text")}},
+				{Name: "Fm0", Lines: []pdfw.Line{l(pdfw.Type1WinAnsi, 600, "rebinding form text")},
+					Forms: []pdfw.Form{{Name: "Fm1", Lines: []pdfw.Line{l(pdfw.Type1WinAnsi, 570, "shadow of fm1 text")}}}},
+			}},
+	}}
+	return pdfw.Write(d, pdfw.Layout{PerPageFonts: true}).Bytes
+}
+
 // PDFStream: same logical document as a.pdf with xref stream, object streams and Flate.
 func PDFStream() []byte {
 	return pdfw.Write(PDFDoc(), pdfw.Layout{XRef: "stream", ObjStm: "all", Filter: "Fl"}).Bytes
@@ -171,7 +195,7 @@ func Named() []struct {
 		Name string
 		Data []byte
 	}{
-		{"a.pdf", PDF()}, {"pending.pdf", PDFPending()}, {"broken.pdf", PDFBroken()}, {"stream.pdf", PDFStream()}, {"ties.pdf", PDFTies()}, {"widths.pdf", PDFWidths()},
+		{"a.pdf", PDF()}, {"pending.pdf", PDFPending()}, {"broken.pdf", PDFBroken()}, {"stream.pdf", PDFStream()}, {"ties.pdf", PDFTies()}, {"widths.pdf", PDFWidths()}, {"forms.pdf", PDFForms()},
 		{"a.docx", DOCX()}, {"a.odt", ODT()}, {"a.xlsx", XLSX()}, {"a.pptx", PPTX()}, {"a.epub", EPUB3()}, {"b.epub", EPUB2()}, {"a.html", HTML()},
 	}
 }
